@@ -344,6 +344,15 @@ class Ctx:
 
     # ---- verdict
     def finish(self):
+        # disk: the intermediate streams of a thorough run are gigabytes per check; what a failure needs is in replays/ (each replay
+        # carries its input), so the big intermediates of this run go
+        try:
+            for f in os.listdir(self.workdir):
+                fp = os.path.join(self.workdir, f)
+                if os.path.isfile(fp) and os.path.getsize(fp) > 64 * 1024 * 1024:
+                    os.remove(fp)
+        except OSError:
+            pass
         known = [e for e in load_known() if e.get("property") == self.prop and e.get("kind") == "finding"]
         rc = 0
         lines = []
